@@ -82,6 +82,13 @@ def gen_codec(rng, tier):
     return lines
 
 
+def gen_codec_parallel(rng, tier):
+    """several writers, then several readers, of ONE instance working at the same time on their own files (what
+       StoreToDisk/LoadFromDisk do with concurrency > 1): every file round-trips with matching checksums"""
+    return ['pwrite w=%d n=%d seed=%d' % (rng.choice((2, 4, 8)), rng.choice((500, 2000, 4000)), rng.randrange(1 << 30))
+            for _ in range(2)]
+
+
 # ------------------------------------------------------------------------------------------------
 # node table / node list (C20)
 # ------------------------------------------------------------------------------------------------
@@ -152,7 +159,8 @@ class MvccSim:
 
     def __init__(self, rng, tier, focus=None, mem=None, cmp=None):
         self.rng = rng
-        self.kv = (cmp or rng.choice(('plain', 'kv'))) == 'kv'
+        self.cmp = cmp or rng.choice(('plain', 'kv', 'plainv'))
+        self.kv = self.cmp == 'kv'
         self.mm = (mem or rng.choice(('go', 'go', 'mm'))) == 'mm'
         self.nw = rng.choice((1, 1, 2, 3, 4))
         self.nkeys = rng.choice((1, 2, 3, 5, 8, 8, 20))
@@ -163,7 +171,7 @@ class MvccSim:
         self.handles = {}     # name -> (key, epoch taken)
         self.nit = 0
         self.nh = 0
-        self.lines = ['cfg cmp=%s mem=%s writers=%d' % ('kv' if self.kv else 'plain', 'mm' if self.mm else 'go', self.nw)]
+        self.lines = ['cfg cmp=%s mem=%s writers=%d' % (self.cmp, 'mm' if self.mm else 'go', self.nw)]
         self.focus = focus
 
     def w(self):
@@ -402,7 +410,8 @@ def gen_mvcc_visit(rng, tier):
         for k in fresh:
             sim.lines.append('put 0 %d 0' % k)
         for k in fresh:
-            sim.lines.append('visitgap %d shards=%d conc=%d delkey=%d' % (s + 1, rng.choice((2, 3, 7, 16, 33)), rng.choice((1, 2, 4)), k))
+            sim.lines.append('visitgap %d shards=%d conc=%d delkey=%d%s' % (s + 1, rng.choice((2, 3, 7, 16, 33)), rng.choice((1, 2, 4)), k,
+                                                                            ' mode=scan' if rng.random() < 0.5 else ''))
     return sim.finish()
 
 
@@ -574,7 +583,7 @@ def gen_refcount(rng, tier, sess):
 def gen_skipconc(rng, tier, sess):
     n = rng.choice((2, 2, 3, 4))
     nkeys = rng.choice((1, 2, 3, 5))
-    sess.send('threads %d' % n)
+    sess.send('threads %d%s' % (n, rng.choice(('', '', ' mem=go', ' mem=mm'))))
     busy = [False] * n
     iters = [dict() for _ in range(n)]      # name -> valid?
     pend = [None] * n
@@ -1104,7 +1113,7 @@ def gen_skipconc_scan(rng, tier, sess):
     """thread 0 scans with a finite refresh interval while the other threads insert and delete around it"""
     n = rng.choice((2, 3))
     nkeys = rng.choice((3, 5, 8))
-    sess.send('threads %d' % n)
+    sess.send('threads %d%s' % (n, rng.choice(('', ' mem=go'))))
     for k in range(nkeys):
         if rng.random() < 0.7:
             o = sess.send('start 0 ins %d lvl=%d' % (k * 2 + 2, rng.choice((0, 0, 1, 2))))
